@@ -84,6 +84,15 @@ Theorem C07_reuse_when_unchanged : forall (fx : bool) (s : St) p sd (s1 : St) (o
 Proof. exact reuse_when_unchanged. Qed.
 Print Assumptions C07_reuse_when_unchanged.
 
+(* the hypothesis [refreshed] is what the documentation asks for: set_condition (with or without arguments) and a model
+   re-assignment always establish it, and only an in-place model change can destroy it *)
+Theorem C07_refreshed_characterised : forall s : St,
+  (forall k, refreshed (fst (step true s (SetCond k)))) /\
+  refreshed (fst (step true s SetModel)) /\
+  (forall op, refreshed s -> op <> ModelInplace -> refreshed (fst (step true s op))).
+Proof. exact refreshed_characterised. Qed.
+Print Assumptions C07_refreshed_characterised.
+
 (* the pinned behaviour (before the repair commit) violates coherence: witnesses *)
 Theorem C07_cache_coherent_refuted_pinned_set_condition :
   stale false 7 [Call (Some (mkPos 0 0, false)) None; SetCond NewVals] (Call None None).
